@@ -265,8 +265,8 @@ func errStrings(err error) []string {
 		}
 		return out
 	}
-	s := err.Error()
-	return strings.Split(strings.TrimSpace(s), "\n")
+	// one entry: a message may quote several lines of source text, which must not be read as further entries
+	return []string{strings.TrimSpace(err.Error())}
 }
 
 var _ = fmt.Sprint
